@@ -508,9 +508,11 @@ func TestC05(t *testing.T) {
 		if c.Opts.B == c.Opts.A {
 			c.Opts.B = (c.Opts.A + 1) % 8
 		}
+		// where the genesis puts the fork: block 1 (mostly), a height the history never reaches, or nowhere
+		c.Opts.Fork = []int{0, 0, 0, 0, 1, 2}[u.N(6, "fork")]
 		// OLVM carries the nonce-based protection and the full operator set even while the known
 		// finding is excluded: give it a fixed share of the cases
-		if u.N(5, "olvm") < 2 {
+		if u.N(5, "olvm") < 2 && c.Opts.Fork == 0 {
 			c.Kind = "OLVM"
 		} else {
 			c.Kind = hist.FarmKinds[(u.N(len(hist.FarmKinds), "kind")+shard)%len(hist.FarmKinds)]
